@@ -158,19 +158,26 @@ def replay_direct(ctx, rec):
             ctx.violation("eager-at-end:" + key, dict(where, spec_end_pulls=rec["endpos"], impl_end_reads=flow.pulled))
 
 
-def build(prog, src, as_source, nested, first="callable"):
+def build(prog, src, as_source, nested, first="callable", lead=0):
+    """lead (spec/Flow.tla): that many elements without data stand before the generator of the Source."""
     import lena.core
     els = [fl.build_stage(st, True, use_context_el=True) for st in prog]
+    before, els = els[:lead], els[lead:]
     if nested and len(els) >= 2:
         els = [lena.core.Sequence(els[0]), lena.core.Sequence(*els[1:])]
     if as_source:
         with fl.quiet_warnings():
             head = (lambda: src) if first == "callable" else ReIterable(src) if first == "reiterable" else src
-            return lena.core.Source(head, *els)
+            return lena.core.Source(*(before + [head] + els))
+    assert not lead
     return lena.core.Sequence(*els)
 
 
-def observe(prog, n, kmax, as_source=False, nested=False, first="callable", stop=None):
+# the ways of building a Source (scenarios whose generator stands after static context elements)
+SOURCE_BUILDS = ((True, False, "callable"), (True, True, "callable"), (True, False, "iterable"), (True, False, "reiterable"))
+
+
+def observe(prog, n, kmax, as_source=False, nested=False, first="callable", stop=None, lead=0):
     """Run the real pipeline; returns dict(out, pulls, pulled_at_build, pulled_at_run, end, ...).
     stop = (k, kind): the consumer stops after k results by close() / dropping the generator / throw()."""
     src = Src(None if n == INF else n)
@@ -180,7 +187,7 @@ def observe(prog, n, kmax, as_source=False, nested=False, first="callable", stop
         try:
             # an implementation that reads its input here never returns on an infinite source
             with fl.time_limit(2):
-                seq = build(prog, src, as_source, nested, first)
+                seq = build(prog, src, as_source, nested, first, lead)
                 res["pulled_at_build"] = src.pulled
                 gen = seq() if as_source else seq.run(src)
                 res["pulled_at_run"] = src.pulled - res["pulled_at_build"]
@@ -247,7 +254,7 @@ def observe(prog, n, kmax, as_source=False, nested=False, first="callable", stop
 
 
 def kinds(prog):
-    return "+".join(st["t"] for st in prog)
+    return "+".join(fl.kind_name(st) for st in prog)
 
 
 def replay(ctx, rec, salt=0, all_stops=False):
@@ -256,10 +263,13 @@ def replay(ctx, rec, salt=0, all_stops=False):
     pulls = rec["pulls"]
     kmax = len(exp_out) + (1 if rec["exhausted"] else 0)
     ok = True
-    for as_source, nested, first in BUILDS:
-        r = observe(prog, n, kmax, as_source, nested, first)
+    lead = rec.get("lead", 0)
+    builds = SOURCE_BUILDS if lead else BUILDS
+    for as_source, nested, first in builds:
+        r = observe(prog, n, kmax, as_source, nested, first, lead=lead)
         ctx.evaluations += 1
-        where = {"prog": prog, "n": n, "source": as_source, "nested": nested, "first": first}
+        where = {"prog": prog, "n": n, "source": as_source, "nested": nested, "first": first,
+                 "elements_before_generator": lead}
         if r["pulled_at_build"] or r["pulled_at_run"]:
             ok = False
             ctx.violation("work-before-demand:%s" % kinds(prog), dict(where, observed=r))
@@ -293,8 +303,8 @@ def replay(ctx, rec, salt=0, all_stops=False):
     for k in range(0, len(exp_out)):
         for j in (range(3) if all_stops else [0]):
             stopkind = STOPKINDS[(k + n + salt + j) % 3]
-            as_source, nested, first = BUILDS[(k + 2 * n + salt + j) % len(BUILDS)]
-            r = observe(prog, n, kmax, as_source, nested, first, stop=(k, stopkind))
+            as_source, nested, first = builds[(k + 2 * n + salt + j) % len(builds)]
+            r = observe(prog, n, kmax, as_source, nested, first, stop=(k, stopkind), lead=lead)
             ctx.evaluations += 1
             lim = pulls[k - 1] if k else 0
             if (r["out"] != exp_out[:k] or r["end"] > lim or r.get("raised") or r.get("timeout")
@@ -302,7 +312,7 @@ def replay(ctx, rec, salt=0, all_stops=False):
                 ok = False
                 ctx.violation("stop-at-k:%s%s" % (kinds(prog), "" if stopkind == "close" else ":" + stopkind),
                               {"prog": prog, "n": n, "k": k, "stop": stopkind, "allowed_pulls": lim,
-                               "source": as_source, "nested": nested, "observed": r})
+                               "source": as_source, "nested": nested, "elements_before_generator": lead, "observed": r})
     return ok
 
 
@@ -426,11 +436,11 @@ def run(ctx):
     try:
         for rec in recs:
             replay(ctx, rec, salt=ctx.seed, all_stops=True)
-            if len(rec["prog"]) == 1 and rec["prog"][0]["t"] in DIRECT and rec["n"] != INF:
+            if len(rec["prog"]) == 1 and rec["prog"][0]["t"] in DIRECT and rec["n"] != INF and not rec.get("lead"):
                 replay_direct(ctx, rec)
             ctx.traces += 1
             if rec["prog"] and rec["n"]:
-                ctx.distinct.add(core.canon([rec["prog"], rec["n"]]))
+                ctx.distinct.add(core.canon([rec["prog"], rec["n"], rec.get("lead", 0)]))
     except TooManyTimeouts:
         return ctx.finish(rule="aborted after three non-terminating real runs (reported as violations)")
     lap("pipelines")
